@@ -66,7 +66,7 @@ static size_t
 xstrlcpy(char *restrict dst, const char *src, size_t dsz)
 {
 	size_t ssz = strlen(src);
-	if (ssz > dsz) {
+	if (ssz >= dsz) {
 		ssz = dsz - 1U;
 	}
 	memcpy(dst, src, ssz);
@@ -119,7 +119,8 @@ dz_io_write(struct dt_dt_s d, zif_t zone, const char *name)
 	/* append name */
 	if (LIKELY(name != NULL)) {
 		*bp++ = '\t';
-		bp += xstrlcpy(bp, name, ep - bp);
+		/* leave room for the newline */
+		bp += xstrlcpy(bp, name, ep - bp - 1U);
 	}
 	*bp++ = '\n';
 	__io_write(gbuf, bp - gbuf, stdout);
@@ -151,12 +152,12 @@ dz_write_nxtr(struct zrng_s r, zif_t z, const char *zn)
 	size_t ntr = zif_ntrans(z);
 
 	if (r.next >= STAMP_MAX) {
-		bp += xstrlcpy(bp, never, bp - ep);
+		bp += xstrlcpy(bp, never, ep - bp);
 	} else {
 		bp += dz_strftr(bp, ep - bp, (struct ztr_s){r.next, r.offs});
 	}
 	/* append next indicator */
-	bp += xstrlcpy(bp, nindi, bp - ep);
+	bp += xstrlcpy(bp, nindi, ep - bp);
 	if (r.trno + 1U < ntr) {
 		/* thank god there's another one */
 		stamp_t zdo = zif_troffs(z, r.trno + 1);
@@ -167,13 +168,14 @@ dz_write_nxtr(struct zrng_s r, zif_t z, const char *zn)
 		bp += dz_strftr(bp, ep - bp, (struct ztr_s){r.next, zdo});
 	} else {
 	never:
-		bp += xstrlcpy(bp, never, bp - ep);
+		bp += xstrlcpy(bp, never, ep - bp);
 	}
 
 	/* append name */
 	if (LIKELY(zn != NULL)) {
 		*bp++ = '\t';
-		bp += xstrlcpy(bp, zn, ep - bp);
+		/* leave room for the newline */
+		bp += xstrlcpy(bp, zn, ep - bp - 1U);
 	}
 	*bp++ = '\n';
 	__io_write(gbuf, bp - gbuf, stdout);
@@ -192,12 +194,12 @@ dz_write_prtr(struct zrng_s r, zif_t z, const char *zn)
 
 		bp += dz_strftr(bp, ep - bp, (struct ztr_s){r.prev, zdo});
 	} else {
-		bp += xstrlcpy(bp, never, bp - ep);
+		bp += xstrlcpy(bp, never, ep - bp);
 	}
 	/* append prev indicator */
-	bp += xstrlcpy(bp, pindi, bp - ep);
+	bp += xstrlcpy(bp, pindi, ep - bp);
 	if (r.prev <= STAMP_MIN) {
-		bp += xstrlcpy(bp, never, bp - ep);
+		bp += xstrlcpy(bp, never, ep - bp);
 	} else {
 		bp += dz_strftr(bp, ep - bp, (struct ztr_s){r.prev, r.offs});
 	}
@@ -205,7 +207,8 @@ dz_write_prtr(struct zrng_s r, zif_t z, const char *zn)
 	/* append name */
 	if (LIKELY(zn != NULL)) {
 		*bp++ = '\t';
-		bp += xstrlcpy(bp, zn, ep - bp);
+		/* leave room for the newline */
+		bp += xstrlcpy(bp, zn, ep - bp - 1U);
 	}
 	*bp++ = '\n';
 	__io_write(gbuf, bp - gbuf, stdout);
